@@ -93,7 +93,9 @@ func (c *rawClient) readLoop() {
 			f.attempts = int(binary.BigEndian.Uint16(f.data[8:10]))
 			f.id = string(f.data[10:26])
 			f.body = f.data[26:]
-			c.msgs = append(c.msgs, f)
+			if len(c.msgs)-c.taken < 5000 { // a flooding server must not exhaust the harness's memory
+				c.msgs = append(c.msgs, f)
+			}
 		} else {
 			c.resp = append(c.resp, f)
 		}
